@@ -67,6 +67,13 @@ var properties = map[string]Prop{
 		Rule: "all version vectors over ids {a,b,c} with per-id entry in {absent, explicit 0, 1, 2, Max} (quick; + Max-1 thorough) plus the zero-value struct: every pair (Compare vs pointwise reference, converse, Merge = pointwise max, commutative, idempotent, upper bound, operands unchanged), every single (Increment strictly After / overflow error, Clone isolation, Write/Read round trip consuming all bytes), every triple (transitivity, Equal is a congruence, Merge associative and least upper bound), and all operation sequences of depth 3 (4) over {Increment, Merge, Clone, Compact, Prune} from non-initial states against a dense reference model; a case is non-trivial when the operands differ / the sequence has at least one operation",
 		Assumptions: []string{"node ids are drawn from {a,b,c}; counters from the stated alphabet: laws about other ids/values are not covered", "the reference model is the dense function id -> counter with absent == 0"},
 	},
+	"C17": {
+		Parts:       []Part{{Harness: "c17"}},
+		Level:       "exploration",
+		QuickBudget: 150, ThoroughBudget: 1500,
+		Rule: "grid family: all views over ids {n1,n2} with member incarnation in generation{1,2} x logical clock{1,2,3} (n1 additionally x 2 (quick) / 4 (thorough) status+timestamp variants) or absent, x epoch{0,2} x view timestamp{now, now-10s} x version vector{{}, {n1:1}, {n2:1}}; every ordered pair under each of the 9 merge options (3 concurrent-version strategies x clock skew{off, 1s, 1h}), triples of an evenly spaced subset of about 110 views under each strategy; reachable family: views generated breadth-first by the real join / re-join (generation bump) / status change / version increment / removal / snapshot / merge operations with a ticking virtual clock (depth 3 quick, 5 thorough; capped, cap reported), all pairs x 9 options + triples of a subset. A case is one merge law evaluation on one pair/triple; pairs of different views are the non-trivial ones",
+		Assumptions: []string{"logical clocks are >= 1 (LogicalClock == 0 only arises from foreign wire input and is outside the property's quantifier)", "time.Now is the virtual clock of the instrumented build", "the grid over-approximates the reachable incarnations (generation and logical clock vary independently)"},
+	},
 	"C05": {
 		Parts:       []Part{{Harness: "c05"}},
 		Level:       "model_checking",
